@@ -10,7 +10,7 @@ From Arsenal Require Import Util Budget BudgetProofs VamDev VamBlockList VamDefr
 From Arsenal Require Import VamInvStep VamInvStep2 VamInvThm VamProps VamAcct VamAcctStep VamAcctStep2 VamAcctThm VamMap VamMapStep VamMapStep2 VamMapThm.
 From Arsenal Require Import VamBal VamBalStep VamBalStep2 VamBalThm.
 From Arsenal Require Import VamDefragInv VamDefragStep VamDefragPass VamDefragThm VamDefragAcct VamDefragMap.
-From Arsenal Require Pass PassProofs Defrag DefragProofs SyncMem SyncMemProofs.
+From Arsenal Require Pass PassProofs Defrag DefragProofs SyncMem SyncMemProofs VamDefragBridge.
 Import ListNotations.
 Open Scope Z_scope.
 
@@ -125,6 +125,54 @@ Proof.
   intros m [<-|Hm]; [lia|]. specialize (T2 m Hm). destruct Gr1 as (Gl & _). lia.
 Qed.
 
+(* a commit attempt that fails (the Map of the destination block is refused) leaves every reference count as it was *)
+Lemma commit_attempt_BB w lr slot dst :
+  BInv w G [] -> MM ms0 w [] -> NA w ->
+  let '(w', r) := commit_attempt c w lr slot dst in
+  match r with ER _ => BInv w' G [] /\ v_tab w' = v_tab w | _ => True end.
+Proof.
+  intros HB HM HN. unfold commit_attempt.
+  destruct (get_block w lr dst) as [b|] eqn:Hgb; [|exact I].
+  destruct (get_block_in _ _ _ _ Hgb) as (l & Hg & Hb & Hbid).
+  pose proof (sm_sub_M ms0 (v_m w) (bk_mem b) (bk_sm b) (proj2 HM) (mi_blocks _ _ (proj1 HM) _ _ _ Hg Hb)) as Psub.
+  pose proof (sm_sub_refs (v_m w) (bk_mem b) (bk_sm b)) as Rsub.
+  destruct (sm_sub (v_m w) (bk_mem b) (bk_sm b)) as (m1 & s1). cbn [snd] in Rsub.
+  set (p := a_persist (get_alloc w (Z.of_nat slot))) in *.
+  assert (Pmap : forall m2 s2 (mr : out unit), (if p then sm_map c m1 (bk_mem b) s1 else (m1, s1, OK tt)) = (m2, s2, mr) ->
+            match mr with ER _ => SyncMem.mapRefs s2 = SyncMem.mapRefs (bk_sm b) + 0 | _ => True end).
+  { intros m2 s2 mr E. destruct p.
+    - pose proof (sm_map_refs c (m_mems m1) m1 (bk_mem b) s1 (proj1 (proj2 Psub))) as P. rewrite E in P. destruct mr; auto; lia.
+    - injection E as _ <- <-. exact I. }
+  destruct (if p then sm_map c m1 (bk_mem b) s1 else (m1, s1, OK tt)) as ((m2 & s2) & mr) eqn:Emap.
+  specialize (Pmap _ _ _ eq_refl).
+  destruct mr as [[]|code| |]; try exact I.
+  set (b2 := mkBlock (bk_id b) (bk_mem b) s2 (bk_meta b)).
+  split; [|rewrite put_block_tab; reflexivity].
+  apply (BInvD_0 _ _ _ (bk_mem b)). replace 0 with (0 + 0) by lia.
+  apply (BD_put_touch_NA w [] 0 lr l b m2 b2 0 (BInv_D _ _ _ _ HB) HN Hg Hb); [reflexivity|reflexivity|exact Pmap].
+Qed.
+
+Lemma replay_BB log : forall w lr,
+  BInv w G [] -> MM ms0 w [] -> NA w ->
+  let '(w', r) := replay_log c w lr log in
+  match r with OK _ => BInv w' G [] /\ (forall m, In m (Defrag.log_moves log) -> zlen (v_tab w) <= tmp_of m) /\ grown w w' | _ => True end.
+Proof.
+  induction log as [|[slot dst|mv] tl IH]; intros w lr HB HM HN; cbn [replay_log Defrag.log_moves]; [split; [exact HB|split; [intros ? []|apply grown_refl]]| |].
+  - pose proof (commit_attempt_BB w lr slot dst HB HM HN) as P.
+    destruct (VamDefragMap.commit_attempt_MM c Hc Hmax Hlarge ms0 w lr slot dst HM HN) as (M1 & N1).
+    destruct (commit_attempt c w lr slot dst) as (w1 & r). cbn [fst] in *.
+    destruct r as [[]|code| |]; try exact I. destruct P as (B1 & Et).
+    specialize (IH w1 lr B1 M1 N1). destruct (replay_log c w1 lr tl) as (w2 & r2). destruct r2 as [[]|code2| |]; auto.
+    destruct IH as (B2 & T2 & Gr2). split; [exact B2|]. split; [intros m Hm; specialize (T2 m Hm); rewrite Et in T2; exact T2|].
+    destruct Gr2 as (Ga & Gb). rewrite Et in Ga, Gb. split; auto.
+  - pose proof (commit_move_BB w lr mv HB HM HN) as P. pose proof (VamDefragMap.commit_move_MM c Hc Hmax Hlarge ms0 w lr mv HM HN) as PM.
+    destruct (commit_move c w lr mv) as (w1 & r).
+    destruct r as [[]|code| |]; auto. destruct P as (B1 & Et & Gr1). destruct PM as (M1 & N1).
+    specialize (IH w1 lr B1 M1 N1). destruct (replay_log c w1 lr tl) as (w2 & r2). destruct r2 as [[]|code| |]; auto.
+    destruct IH as (B2 & T2 & Gr2). split; [exact B2|]. split; [|eapply grown_trans; eauto].
+    intros m [<-|Hm]; [lia|]. specialize (T2 m Hm). destruct Gr1 as (Gl & _). lia.
+Qed.
+
 Lemma collect_list_BB v dc p :
   VamInv c v -> MM ms0 v [] -> BInv v G [] -> Defrag.c_moves (dc_ctx dc) = [] ->
   let '(v', r) := collect_list c v dc p in
@@ -136,7 +184,9 @@ Proof.
   intros HI HM HB Hidle. unfold collect_list.
   destruct (project v (dc_lr dc)) as [st|] eqn:Ep; [|exact I].
   destruct (get_blist v (dc_lr dc)) as [l|] eqn:Hg; [|exact I].
-  destruct (Defrag.collect_moves st (dc_ctx dc) p) as (cs & wr).
+  pose proof (VamDefragBridge.collect_moves_f_log_g1 vam (att_commit c (dc_lr dc)) st (dc_ctx dc) p v) as (Hlg & _).
+  destruct (Defrag.collect_moves_f vam (att_commit c (dc_lr dc)) st (dc_ctx dc) p v) as (((cs & env) & log) & wr).
+  unfold Defrag.res_f, Defrag.log_f in Hlg. cbn [fst snd] in Hlg. rewrite Hidle in Hlg. cbn [app] in Hlg.
   set (bl' := Defrag.d_blocks (Defrag.cs_st cs)).
   set (l1 := set_blocks l (unproject_blocks (bl_blocks l) bl')). set (v1 := set_blist v (dc_lr dc) l1).
   assert (Hun : forall b1, In b1 (bl_blocks l1) -> exists b, In b (bl_blocks l) /\ bk_id b = bk_id b1 /\ bk_mem b = bk_mem b1 /\ bk_sm b = bk_sm b1).
@@ -152,11 +202,10 @@ Proof.
       + exists l. split; [exact Hg|]. split; [unfold l1; cbn; apply unproject_ids|]. intros b1 Hb1. destruct (Hun b1 Hb1) as (b & Hb & E0 & E1 & _). exists b. auto.
       + exists l0. split; [exact G0'|]. split; [reflexivity|]. intros b' Hb'. exists b'. auto.
     - intros s a Sa _. unfold slot_is, v1 in *. rewrite set_blist_tab in Sa. exact Sa. }
-  rewrite Hidle. cbn [length skipn].
   assert (Ez : zlen (v_tab v1) = zlen (v_tab v)) by (unfold v1; rewrite set_blist_tab; reflexivity).
   destruct wr as [| |why]; [| |exact I];
-    (pose proof (commit_moves_BB (Defrag.cs_moves cs) v1 (dc_lr dc) B1 M1 N1) as P; destruct (commit_moves c v1 (dc_lr dc) (Defrag.cs_moves cs)) as (v2 & r);
-     destruct r as [[]|code| |]; auto; destruct P as (B2 & T2 & _); split; [exact B2|cbn; intros m Hm; specialize (T2 m Hm); lia]).
+    (pose proof (replay_BB log v1 (dc_lr dc) B1 M1 N1) as P; destruct (replay_log c v1 (dc_lr dc) log) as (v2 & r);
+     destruct r as [[]|code| |]; auto; destruct P as (B2 & T2 & _); split; [exact B2|cbn; rewrite Hlg; intros m Hm; specialize (T2 m Hm); lia]).
 Qed.
 
 (* the temporaries of the moves of a pass lie beyond the table the pass started with *)
